@@ -38,6 +38,8 @@ def tlc_small(r, total):
 def sig_of(r):
     tags, _, _ = _c13rows.classify(r)
     d = "up" if "up" in tags else "down" if "down" in tags else "equal"
+    if "intermediate-quotient-beyond-64-bits-result-fits" in tags:
+        return "next-price:%s:intermediate-quotient-beyond-64-bits-result-fits" % d
     if "product-beyond-64-bits" in tags:
         return "next-price:%s:price-times-delta-beyond-64-bits" % d
     if "elapsed-factor-beyond-64-bits" in tags:
@@ -95,7 +97,7 @@ def run(ctx):
     if rc != 0:
         raise vlib.Infra("fee market recorder failed:\n" + out[-3000:])
     rows = vlib.read_ndjson(os.path.join(ctx.work, "out", "rows.ndjson"))
-    if ctx.only is None and len(rows) < 5 * (calls + ctx.pick(7, 13)):
+    if ctx.only is None and len(rows) < 5 * (calls + ctx.pick(11, 17)):
         raise vlib.Infra("recorder wrote %d rows for %d calls" % (len(rows), calls))
     if not rows:
         raise vlib.Infra("recorder wrote no rows")
@@ -120,7 +122,7 @@ def run(ctx):
     ctx.sample({"kind": "recorded-row", "row": rows[len(rows) // 2]})
     if ctx.only is None:
         for t in ("up", "down", "product-beyond-64-bits", "since>=window", "total-saturated", "since-enormous",
-                  "elapsed-factor-beyond-64-bits"):
+                  "elapsed-factor-beyond-64-bits", "intermediate-quotient-beyond-64-bits-result-fits"):
             if not tagcount.get(t):
                 raise vlib.Infra("vacuity: no recorded row of class " + t)
         if not small_rows:
